@@ -80,7 +80,14 @@ def observe_params(text, head=None):
     if head is None:
         head = ["G1 ", "G1", "G1  ", "G1 "][len(text) % 4]
     try:
-        items = list(GcodeParser().parse(head + text).parameterItems())
+        parser = GcodeParser()
+        if len(text) % 3 == 0:
+            # the same parser object has just gone through the same text line by line (as the
+            # plugin does with script texts), or has parsed it from an offset
+            list(parser.parseLines(head + text))
+        elif len(text) % 3 == 1:
+            parser.parse(head + text, len(head + text))
+        items = list(parser.parse(head + text).parameterItems())
         for name, value in items:
             if name == "":
                 continue
@@ -148,12 +155,16 @@ def c18_cases(tier, rng):
     return cases
 
 
-def observe_lines(text):
+def observe_lines(text, used=None):
+    """used: a text the same parser object has read (its first line only) before."""
     from octoprint_excluderegion.GcodeParser import GcodeParser
     events = []
-    main = {"k": "lines", "src": text, "srclen": len(text), "pieces": [], "raised": ""}
+    main = {"k": "lines", "src": text, "srclen": len(text), "pieces": [], "raised": "",
+            "used": used if used is not None else ""}
     try:
         parser = GcodeParser()
+        if used is not None:
+            parser.parse(used)
         steps = 0
         for parsed in parser.parseLines(text):
             steps += 1
@@ -233,8 +244,13 @@ def run(prop, tier, seed):
             events.append(observe_params(text, head))
     else:
         cases = c18_cases(tier, rng)
-        for text in cases:
+        for index, text in enumerate(cases):
             events.extend(observe_lines(text))
+            if index % 10 == 0:
+                # the same parser object has read the first line of another multi-line text
+                events.extend(observe_lines(text, "G1 X1 ;a\nG92.1 E0*5\n M117 left over \n"))
+        for text in ["", "\n", "G1 X1"]:
+            events.extend(observe_lines(text, "N1 G1 X1*3\nG1 X2\nG1 X3\n"))
     size = 300
     traces = [{"id": n + 1, "ev": events[k:k + size]}
               for n, k in enumerate(range(0, len(events), size))]
@@ -301,7 +317,7 @@ def replay(payload):
     if event["k"] == "params":
         events = [observe_params(event["text"], event.get("head") or None)]
     elif event["k"] == "lines":
-        events = observe_lines(event["src"])
+        events = observe_lines(event["src"], event.get("used") or None)
     else:
         events = observe_lines(event.get("rendered", ""))
     verdicts = common.validate_traces("TraceText", "TraceText.cfg", [{"id": 1, "ev": events}],
